@@ -1,5 +1,227 @@
-//! Harness binary for property C11 (line protocol; see /verif/vlib/BUILDER_GUIDE.md).
+//! Harness for C11 (language server survives every history of edits and queries).
+//! Line protocol (module names are dotted, sources hex-encoded):
+//!   reset                      fresh ServerState (no sources)
+//!   new  m1 hex1 m2 hex2 ...   ServerState::new with these sources (the "freshly started" path)
+//!   up   m1 hex1 [m2 hex2 ...] ServerState::update
+//!   rn   old new               ServerState::rename_module
+//!   rm   m1 [m2 ...]           ServerState::remove
+//!   q    [extra module names]  full query sweep: every query kind at every line/column of every
+//!                              module (+ out-of-range positions, + the extra/absent modules)
+//! Answers:
+//!   ops:  `ok log=<heap call log of this op>`   (see `render_log`)  or `panic <msg>`
+//!   q:    `ok n=<queries issued>` or `panic <query>@<module>:<line>:<col> <msg>` (first panic)
+use samlang_ast::{Location, Position};
+use samlang_heap::{Heap, ModuleReference, verif_hooks::HeapCall};
+use samlang_services::{completion, query, rewrite, server_state::ServerState};
+use samverif_harness::util::*;
+use std::collections::{BTreeMap, HashMap};
+use std::panic::{AssertUnwindSafe, catch_unwind};
+
+fn mref(heap: &mut Heap, name: &str) -> ModuleReference {
+  heap.alloc_module_reference_from_string_vec(name.split('.').map(|s| s.to_string()).collect())
+}
+
+fn show_pstr(p: samlang_heap::PStr) -> String {
+  match samlang_heap::verif_hooks::pstr_repr(p) {
+    Ok(b) => format!("i{}", hex(&b)),
+    Err(id) => format!("r{id}"),
+  }
+}
+
+fn tail(state: &ServerState) -> String {
+  let st = state.heap.stat();
+  let nums: Vec<&str> = st.split(|c: char| !c.is_ascii_digit()).filter(|x| !x.is_empty()).collect();
+  let mut mods: Vec<usize> =
+    state.string_sources.keys().map(|m| samlang_heap::verif_hooks::module_reference_index(*m)).collect();
+  mods.sort();
+  format!(
+    "stat={} mods={}",
+    nums.join(","),
+    mods.iter().map(|m| m.to_string()).collect::<Vec<_>>().join(",")
+  )
+}
+
+fn render_log(log: Vec<HeapCall>) -> String {
+  let mut out = Vec::with_capacity(log.len());
+  for c in log {
+    out.push(match c {
+      HeapCall::AllocString(s) => format!("A{}", hex(s.as_bytes())),
+      HeapCall::AllocStatic(s) => format!("S{}", hex(s.as_bytes())),
+      HeapCall::AllocTemp => "T".to_string(),
+      HeapCall::AllocModuleRef(ps) => {
+        format!("R{}", ps.into_iter().map(show_pstr).collect::<Vec<_>>().join(","))
+      }
+      HeapCall::AddUnmarked(m) => format!("U{m}"),
+      HeapCall::Pop(m) => format!("P{m}"),
+      HeapCall::Mark(p) => format!("M{}", show_pstr(p)),
+      HeapCall::Sweep(w) => format!("W{w}"),
+    });
+  }
+  out.join(" ")
+}
+
+struct Sweep {
+  n: usize,
+  first_panic: Option<String>,
+}
+
+fn guard<T>(sw: &mut Sweep, what: &str, m: &str, pos: (u32, u32), f: impl FnOnce() -> T) {
+  sw.n += 1;
+  if let Err(e) = catch_unwind(AssertUnwindSafe(f)) {
+    if sw.first_panic.is_none() {
+      sw.first_panic = Some(format!("{what}@{m}:{}:{} [SYNTAX] {}", pos.0, pos.1, panic_msg(&e).replace('\n', " ")));
+    }
+  }
+}
+
+fn positions(text: &str) -> Vec<(u32, u32)> {
+  let mut ps = Vec::new();
+  let lines: Vec<&str> = text.split('\n').collect();
+  for (l, line) in lines.iter().enumerate() {
+    for c in 0..=line.len() {
+      ps.push((l as u32, c as u32));
+    }
+    ps.push((l as u32, line.len() as u32 + 7));
+  }
+  let nl = lines.len() as u32;
+  ps.push((nl, 0));
+  ps.push((nl + 5, 3));
+  ps.push((0, 100000));
+  ps.push((u32::MAX, u32::MAX));
+  ps.push((u32::MAX - 1, 0));
+  ps
+}
+
+fn query_sweep(state: &mut ServerState, names: &BTreeMap<String, ModuleReference>, sw: &mut Sweep) {
+  for (name, m) in names {
+    let m = *m;
+    let text = state.string_sources.get(&m).cloned().unwrap_or_default();
+    guard(sw, "errors", name, (0, 0), || {
+      let errs = state.get_errors(&m);
+      let mut s = String::new();
+      for e in errs {
+        let ide = e.to_ide_format(&state.heap, &state.string_sources);
+        s.push_str(&ide.ide_error);
+        s.push_str(&ide.full_error);
+        for l in &ide.reference_locs {
+          s.push_str(&l.pretty_print(&state.heap));
+        }
+      }
+      s
+    });
+    guard(sw, "format", name, (0, 0), || rewrite::format_entire_document(state, &m));
+    guard(sw, "folding", name, (0, 0), || query::folding_ranges(state, &m));
+    for (l, c) in positions(&text) {
+      let pos = Position(l, c);
+      guard(sw, "hover", name, (l, c), || {
+        query::hover(state, &m, pos).map(|r| r.contents.iter().map(|c| c.to_string()).collect::<Vec<_>>())
+      });
+      guard(sw, "definition", name, (l, c), || {
+        query::definition_location(state, &m, pos).map(|l| l.pretty_print(&state.heap))
+      });
+      guard(sw, "references", name, (l, c), || {
+        query::all_references(state, &m, pos).iter().map(|l| l.pretty_print(&state.heap)).collect::<Vec<_>>()
+      });
+      guard(sw, "signature", name, (l, c), || query::signature_help(state, &m, pos).map(|r| r.to_string()));
+      guard(sw, "completion", name, (l, c), || {
+        completion::auto_complete(state, &m, pos).iter().map(|i| i.to_string()).collect::<Vec<_>>()
+      });
+      guard(sw, "codeaction", name, (l, c), || {
+        let loc = Location { module_reference: m, start: pos, end: pos };
+        format!("{:?}", rewrite::code_actions(state, loc))
+      });
+      guard(sw, "rename", name, (l, c), || rewrite::rename(state, &m, pos, "renamedVariableWithLongName"));
+      guard(sw, "rename-bad", name, (l, c), || rewrite::rename(state, &m, pos, "Bad Name"));
+    }
+  }
+}
+
 fn main() {
-  eprintln!("c11: not implemented yet");
-  std::process::exit(2);
+  std::panic::set_hook(Box::new(|_| {}));
+  let mut state = ServerState::new(Heap::new(), false, HashMap::new());
+  // every module name ever mentioned in this history (also the removed / renamed-away ones)
+  let mut names: BTreeMap<String, ModuleReference> = BTreeMap::new();
+  for_each_line(|line| {
+    let t: Vec<&str> = line.split(' ').collect();
+    let op = t[0];
+    let r = catch_unwind(AssertUnwindSafe(|| match op {
+      "reset" => {
+        state = ServerState::new(Heap::new(), false, HashMap::new());
+        names.clear();
+        format!("ok {} log=", tail(&state))
+      }
+      "new" => {
+        let mut heap = Heap::new();
+        names.clear();
+        let mut srcs = HashMap::new();
+        for pair in t[1..].chunks(2) {
+          let m = mref(&mut heap, pair[0]);
+          names.insert(pair[0].to_string(), m);
+          srcs.insert(m, unhex_str(pair[1]));
+        }
+        state = ServerState::new(heap, false, srcs);
+        format!("ok {} log={}", tail(&state), render_log(std::mem::take(&mut state.heap.verif_log)))
+      }
+      "up" => {
+        let mut ups = Vec::new();
+        for pair in t[1..].chunks(2) {
+          let m = mref(&mut state.heap, pair[0]);
+          names.insert(pair[0].to_string(), m);
+          ups.push((m, unhex_str(pair[1])));
+        }
+        state.update(ups);
+        format!("ok {} log={}", tail(&state), render_log(std::mem::take(&mut state.heap.verif_log)))
+      }
+      "rn" => {
+        let a = mref(&mut state.heap, t[1]);
+        let b = mref(&mut state.heap, t[2]);
+        names.insert(t[1].to_string(), a);
+        names.insert(t[2].to_string(), b);
+        state.rename_module(vec![(a, b)]);
+        format!("ok {} log={}", tail(&state), render_log(std::mem::take(&mut state.heap.verif_log)))
+      }
+      "rm" => {
+        let ms: Vec<ModuleReference> = t[1..]
+          .iter()
+          .map(|n| {
+            let m = mref(&mut state.heap, n);
+            names.insert(n.to_string(), m);
+            m
+          })
+          .collect();
+        state.remove(&ms);
+        format!("ok {} log={}", tail(&state), render_log(std::mem::take(&mut state.heap.verif_log)))
+      }
+      "q" => {
+        for n in &t[1..] {
+          let m = mref(&mut state.heap, n);
+          names.insert(n.to_string(), m);
+        }
+        let mut sw = Sweep { n: 0, first_panic: None };
+        query_sweep(&mut state, &names, &mut sw);
+        match sw.first_panic {
+          None => format!("ok n={}", sw.n),
+          Some(p) => {
+            // does the current text of the module in which the query panicked have syntax errors?
+            let mname = p.split('@').nth(1).and_then(|r| r.split(':').next()).unwrap_or("").to_string();
+            let flag = match names.get(&mname).and_then(|m| state.string_sources.get(m)) {
+              Some(text) => {
+                let mut h = Heap::new();
+                let mut es = samlang_errors::ErrorSet::new();
+                let _ = samlang_parser::parse_source_module_from_text(text, ModuleReference::DUMMY, &mut h, &mut es);
+                if es.has_errors() { "syntax-errors=1" } else { "syntax-errors=0" }
+              }
+              None => "syntax-errors=absent",
+            };
+            format!("panic {}", p.replace("[SYNTAX]", &format!("[{flag}]")))
+          }
+        }
+      }
+      other => format!("bad-op {other}"),
+    }));
+    match r {
+      Ok(s) => s,
+      Err(e) => format!("panic op:{op} {}", panic_msg(&e).replace('\n', " ")),
+    }
+  });
 }
